@@ -137,6 +137,16 @@ theorem gen_agrees_with_model_ord (o : Ord) (s a : NCell) :
   rw [(gen_ord_table (o.cmp s.v a.v) s.m a.m).1.2.2.2]
   cases h1 : s.m <;> cases h2 : a.m <;> simp [ordSpec, ordCode, h1, h2]
 
+/-- `_compatible_arg` regenerated from the source: operands of one class are compatible iff their units can match, their
+    WHOLE item shapes (numerator and denominator axes) are equal and their shapes broadcast — exactly these tests -/
+theorem gen_compat_checks : Gen.Cmp.compat_checks = [.units, .item, .broadcast] := by decide
+
+/-- … which is the hand-written `compatCode` the driver executes -/
+theorem gen_agrees_with_model_compat (itemS itemA : List Nat) (ss sa : Shape) :
+    compatOf Gen.Cmp.compat_checks itemS itemA ss sa = compatCode itemS itemA ss sa := by
+  rw [gen_compat_checks]
+  by_cases h : itemS = itemA <;> simp [compatOf, compatCode, h]
+
 /-- truth testing regenerated from `Qube.__bool__`: the decision list is the documented one -/
 theorem gen_bool_table : ∀ tAll tAny shaped masked : Bool,
     Gen.Cmp.bool_gen tAll tAny shaped masked = boolSpec tAll tAny shaped masked := by decide
